@@ -234,6 +234,8 @@ def statement_start(code, pos):
                 continue
             break
         i -= 1
+    if i < len(code) and code[i] == ">":
+        i += 1
     return i
 
 
@@ -317,6 +319,9 @@ def scan_file(rel, src):
     # subtraction
     for m in re.finditer(r"(?<=\S) -=? (?=\S)", code):
         left, right = operand_left(code, m.start()), operand_right(code, m.end())
+        if "=" in m.group(0):
+            semi = code.find(";", m.end())
+            right = norm(code[m.end():semi]) if 0 <= semi - m.end() < 120 else right
         if re.fullmatch(NUM, left or "x") and re.fullmatch(NUM, right or "x"):
             continue
         add("sub", m.start(), f"{left}{m.group(0)}{right}")
@@ -405,10 +410,18 @@ def main():
         d = e.get("discharge") or {}
         if d.get("by") not in valid_by or not (d.get("text") or d.get("guard") or d.get("lemma")):
             problems["undischarged"].append(k)
-        if d.get("by") == "guard":
-            g = norm(d.get("guard", ""))
-            if not g or not any(g in b for b in bodies.get((e["file"], e["fn"]), [])):
-                problems["guard"].append((k, g))
+        if d.get("guard"):
+            # quoted guard(s): each must still occur (whitespace-normalised) in the body of the function the site is in,
+            # or of the function named by "guard_in": {"file": .., "fn": ..}
+            where = d.get("guard_in") or {}
+            gkey = (where.get("file", e["file"]), where.get("fn", e["fn"]))
+            gs = d["guard"] if isinstance(d["guard"], list) else [d["guard"]]
+            for g in gs:
+                g = norm(g)
+                if not g or not any(g in b for b in bodies.get(gkey, [])):
+                    problems["guard"].append((k, g))
+        elif d.get("by") == "guard":
+            problems["guard"].append((k, "<no guard quoted>"))
     for k, n in counted.items():
         if k not in listed:
             problems["new"].append((k, n, lines[k]))
